@@ -1053,6 +1053,30 @@ def r19_box_as_mut(toks, counts):
     return out
 
 
+def r21_map_err_anyhow(toks, counts):
+    """`.map_err(|e| anyhow::anyhow!(..))` -> `.map_err(opaque_anyhow)`: the closure only decorates the error value"""
+    out = []
+    i = 0
+    n = len(toks)
+    while i < n:
+        t = toks[i]
+        if is_id(t, 'map_err'):
+            op = next_sig(toks, i + 1)
+            if op < n and is_p(toks[op], '('):
+                cl = match_close(toks, op)
+                inner = [x for x in toks[op + 1:cl] if x[0] not in TRIVIA]
+                texts = [x[1] for x in inner]
+                if len(texts) >= 8 and texts[0] == '|' and texts[2] == '|' and texts[3:8] == ['anyhow', ':', ':', 'anyhow', '!']:
+                    out.append(t)
+                    out += [('p', '('), ('id', 'opaque_anyhow'), ('p', ')')]
+                    counts['R21'] = counts.get('R21', 0) + 1
+                    i = cl + 1
+                    continue
+        out.append(t)
+        i += 1
+    return out
+
+
 def r9_enumerate(toks, counts):
     """`for (i, P) in E.enumerate() { B }`            ->  `{ let mut i: usize = 0; for P in E { B i += 1; } }`
        `for (i, P) in E.enumerate().skip(N) { B }`    ->  same with the body guarded by `if i >= N { B }`
@@ -1196,6 +1220,7 @@ def extract_region(src_text, path, opts=None):
                 item = r17_flatten_options(item, counts)
             if 'R19' in opts.get('rules', ()):
                 item = r19_box_as_mut(item, counts)
+            item = r21_map_err_anyhow(item, counts)
             item = r13_binders(item, counts)
     if 'R10' in opts.get('rules', ()):
         item = r10_trailing_continue(item, counts)
